@@ -496,6 +496,12 @@ class FSModel:
         if self.fault_at is not None and k == self.fault_at:
             self.log.append(("fault", kind, name))
             raise OSError(errno.EIO, "injected I/O error", name)
+        fw = getattr(self, "fault_write_of", None)
+        if fw and kind in ("open_w", "replace") and _real_os.path.basename(str(name)).split("_", 2)[-1 if _real_os.path.basename(str(name)).startswith("._") else 0].endswith(fw):
+            # one-shot: the next write to this file fails
+            self.fault_write_of = None
+            self.log.append(("fault", kind, name))
+            raise OSError(errno.EIO, "injected I/O error (write)", name)
 
     def _effect(self, kind, name, partial_target=None):
         self._op(kind, name)
@@ -651,6 +657,10 @@ class RealFS:
         self.ops += 1
         if self.fault_at is not None and k == self.fault_at:
             raise OSError(errno.EIO, "injected I/O error", name)
+        fw = getattr(self, "fault_write_of", None)
+        if fw and kind in ("open_w", "replace") and _real_os.path.basename(str(name)).split("_", 2)[-1 if _real_os.path.basename(str(name)).startswith("._") else 0].endswith(fw):
+            self.fault_write_of = None
+            raise OSError(errno.EIO, "injected I/O error (write)", name)
 
     def _effect(self, kind, name, partial=None):
         self._op(kind, name)
